@@ -1891,7 +1891,8 @@ public:
       SVectorBase<R>& row = rowVector_w(i);
       SVectorBase<R>& col = colVector_w(j);
 
-      if(mpq_get_d(*val) != R(0))
+      // the sign is taken from the rational itself: its double image underflows to 0 for tiny non-zero values
+      if(mpq_sgn(*val) != 0)
       {
          if(row.pos(j) >= 0 && col.pos(i) >= 0)
          {
